@@ -82,7 +82,7 @@ REWRITE_SETS = [
     ("exit", "", ["internal/lg"]),
     ("net,os,exit,fatal,signal,yield", "", ["apps/nsq_to_file"]),
     ("net,exit,fatal,signal,stdin,yield", "", ["apps/to_nsq", "apps/nsq_to_nsq", "apps/nsq_to_http"]),
-    ("exit", "", ["apps/nsqadmin", "apps/nsqd"]),
+    ("exit", "", ["apps/nsqadmin", "apps/nsqd", "apps/nsqlookupd"]),
 ]
 
 def ensure_tools():
@@ -140,7 +140,7 @@ def build(scratch, targets=("world",), verbose=False):
     # world packages (overlay-only directories under the module root)
     for f in sorted(glob.glob(os.path.join(VERIF, "worlds/*.go"))):
         overlay[os.path.join(REPO, "zzverif", os.path.basename(f))] = f
-    for app in ("nsq_to_file", "to_nsq", "nsq_to_nsq", "nsq_to_http", "nsqadmin", "nsqd"):
+    for app in ("nsq_to_file", "to_nsq", "nsq_to_nsq", "nsq_to_http", "nsqadmin", "nsqd", "nsqlookupd"):
         for f in sorted(glob.glob(os.path.join(VERIF, "inpkg", app, "*.go"))):
             overlay[os.path.join(REPO, "apps", app, os.path.basename(f))] = f
         # the shared harness (run loop, PRNG, replay files, raw clients) as package main
@@ -161,7 +161,7 @@ def build(scratch, targets=("world",), verbose=False):
     bins = {}
     os.makedirs(os.path.join(scratch, "bin"), exist_ok=True)
     pkgs = {"world": "./zzverif", "world_race": "./zzverif", "nsq_to_file": "./apps/nsq_to_file", "to_nsq": "./apps/to_nsq",
-            "nsq_to_nsq": "./apps/nsq_to_nsq", "nsq_to_http": "./apps/nsq_to_http", "nsqadmin": "./apps/nsqadmin", "nsqd": "./apps/nsqd"}
+            "nsq_to_nsq": "./apps/nsq_to_nsq", "nsq_to_http": "./apps/nsq_to_http", "nsqadmin": "./apps/nsqadmin", "nsqd": "./apps/nsqd", "nsqlookupd": "./apps/nsqlookupd"}
     for t in targets:
         outp = os.path.join(scratch, "bin", t + ".test")
         flags = ["-race"] if t.endswith("_race") else []
